@@ -223,7 +223,7 @@ def main():
         res = discharge_texts(items, timeout=timeout, both=(tier == 'thorough'))
         t_dis = time.time() - tg
         tg = time.time()
-        cres = discharge_texts(cans, timeout=2, jobs=16)
+        cres = discharge_texts(cans, timeout=1, jobs=16)
         t_can = time.time() - tg
     except Exception:
         print('CHECKER-ERROR', prop, traceback.format_exc()[-1500:])
